@@ -799,7 +799,7 @@ class Sandbox:
         """
         if isinstance(value, SandboxVariable):
             return value.name
-        if len(repr(value)) <= self.MAXIMUM_TEMPORARY_LENGTH and _has_literal_repr(value):
+        if _has_literal_repr(value) and self._is_short(value):
             return repr(value)
         key = '_temporary_{}_{}'.format(category, name)
         if key in self.data:
@@ -807,6 +807,14 @@ class Sandbox:
         self._temporary_variables.add(key)
         self.data[key] = value
         return key
+
+    def _is_short(self, value):
+        """ Whether the repr of the value is short enough to be put into the generated code. """
+        try:
+            return len(repr(value)) <= self.MAXIMUM_TEMPORARY_LENGTH
+        except ValueError:
+            # An int with more digits than Python is willing to print
+            return False
 
     def make_safe_variable(self, name):
         """
